@@ -91,6 +91,7 @@ type Op struct {
 	Content int    `json:"content,omitempty"`
 	Upto    uint64 `json:"upto,omitempty"`
 	Roots   []int  `json:"roots,omitempty"` // CA roots: ids, first is active
+	Sub     []*Op  `json:"sub,omitempty"`   // txn: the verbs of one transaction (all at Idx)
 }
 
 func sessID(n int) string { return fmt.Sprintf("00000000-0000-0000-0000-00000000000%d", n) }
@@ -246,6 +247,39 @@ func apply(s *state.Store, op *Op) (errs string) {
 		return e(s.PeeringWrite(op.Idx, &pbpeering.PeeringWriteRequest{Peering: p}))
 	case "peer_del":
 		return e(s.PeeringDelete(op.Idx, state.Query{Value: op.Name}))
+	case "txn":
+		var ops structs.TxnOps
+		for _, o := range op.Sub {
+			switch o.Kind {
+			case "kv_set", "kv_del", "kv_deltree", "kv_lock", "kv_unlock":
+				verb := map[string]api.KVOp{"kv_set": api.KVSet, "kv_del": api.KVDelete, "kv_deltree": api.KVDeleteTree,
+					"kv_lock": api.KVLock, "kv_unlock": api.KVUnlock}[o.Kind]
+				ops = append(ops, &structs.TxnOp{KV: &structs.TxnKVOp{Verb: verb,
+					DirEnt: structs.DirEntry{Key: o.Key, Value: []byte{byte(o.Val)}, Flags: o.Flags, Session: o.Session}}})
+			case "node":
+				ops = append(ops, &structs.TxnOp{Node: &structs.TxnNodeOp{Verb: api.NodeSet,
+					Node: structs.Node{Node: o.Node, Address: addr(o.Addr)}}})
+			case "del_node":
+				ops = append(ops, &structs.TxnOp{Node: &structs.TxnNodeOp{Verb: api.NodeDelete, Node: structs.Node{Node: o.Node}}})
+			case "svc":
+				ops = append(ops, &structs.TxnOp{Service: &structs.TxnServiceOp{Verb: api.ServiceSet, Node: o.Node, Service: *mkService(o.Svc)}})
+			case "del_svc":
+				ops = append(ops, &structs.TxnOp{Service: &structs.TxnServiceOp{Verb: api.ServiceDelete, Node: o.Node,
+					Service: structs.NodeService{ID: o.SvcID}}})
+			case "check":
+				ops = append(ops, &structs.TxnOp{Check: &structs.TxnCheckOp{Verb: api.CheckSet, Check: *mkCheck(o.Node, o.Checks[0])}})
+			case "del_check":
+				ops = append(ops, &structs.TxnOp{Check: &structs.TxnCheckOp{Verb: api.CheckDelete,
+					Check: structs.HealthCheck{Node: o.Node, CheckID: types.CheckID(o.ChkID)}}})
+			default:
+				return "bad txn verb " + o.Kind
+			}
+		}
+		_, errsT := s.TxnRW(op.Idx, ops)
+		if len(errsT) > 0 {
+			return "txn: " + errsT[0].What
+		}
+		return ""
 	}
 	return "unknown op " + op.Kind
 }
@@ -629,7 +663,7 @@ var (
 	uTags   = []string{"a", "b"}
 	uKeys   = []string{"a", "a/", "a/b", "a/b/c", "ab", "b", "a/c"}
 	uPrefix = []string{"", "a", "a/", "a/b", "a/b/", "b", "z"}
-	uChecks = []string{"serfHealth", "c1", "c2"}
+	uChecks = []string{"serfHealth", "c1", "c2", "c3"}
 	uSvcIDs = []string{"s1", "s2", "p1"}
 	uCfg    = [][2]string{{structs.ServiceDefaults, "web"}, {structs.ServiceDefaults, "api"}, {structs.ProxyDefaults, "global"}}
 )
@@ -672,6 +706,7 @@ func queryList(ext bool) []Q {
 	qs = append(qs, Q{K: "cfg_kind", A: structs.ServiceDefaults}, Q{K: "cfg_kind", A: ""})
 	qs = append(qs, Q{K: "ca_roots"}, Q{K: "pq_get", A: pqID(1)}, Q{K: "pq_get", A: pqID(2)}, Q{K: "pq_list"})
 	if ext {
+		qs = append(qs, Q{K: "svc_nodes", A: "Web"}, Q{K: "csn", A: "Web"})
 		qs = append(qs, Q{K: "ixn_match", A: "web"}, Q{K: "ixn_match", A: "api"}, Q{K: "cfg_get", A: structs.ServiceIntentions, B: "web"},
 			Q{K: "peer_read", A: "p1"}, Q{K: "peer_read", A: "p2"}, Q{K: "peer_list"})
 	}
@@ -736,6 +771,9 @@ func (g *gen) svcSpec() *SvcSpec {
 	default:
 		sp.Name = g.pick([]string{"web", "api", "api", "db"})
 	}
+	if g.ext && sp.Kind == "" && sp.Name == "web" && g.r.Intn(5) == 0 {
+		sp.Name = "Web" // names that differ only in case share the memdb index but not the index-table row
+	}
 	if sp.Kind == "" && g.r.Intn(6) == 0 {
 		sp.Native = true
 	}
@@ -749,7 +787,7 @@ func (g *gen) svcSpec() *SvcSpec {
 
 func (g *gen) checkSpec(node string) CheckSpec {
 	c := CheckSpec{ID: g.pick(uChecks), Status: []int{0, 0, 1, 2}[g.r.Intn(4)], Output: g.r.Intn(2)}
-	if c.ID == "c2" {
+	if c.ID == "c2" || c.ID == "c3" {
 		c.Svc = g.svcOn(node)
 	}
 	if g.ext && c.ID == "c1" && g.r.Intn(3) == 0 {
@@ -761,6 +799,34 @@ func (g *gen) checkSpec(node string) CheckSpec {
 func (g *gen) next() *Op {
 	g.idx += uint64(1 + g.r.Intn(3))
 	op := &Op{Idx: g.idx}
+	if g.ext && g.r.Intn(100) < 8 {
+		// a transaction: several verbs under one index (all or nothing)
+		op.Kind = "txn"
+		for n := 2 + g.r.Intn(3); n > 0; n-- {
+			var o *Op
+			for o == nil {
+				c := g.nextPlain()
+				switch c.Kind {
+				case "kv_set", "kv_del", "kv_deltree", "kv_lock", "kv_unlock", "node", "del_node", "svc", "del_svc", "check", "del_check":
+					o = c
+				}
+			}
+			o.Idx = op.Idx
+			op.Sub = append(op.Sub, o)
+		}
+		return op
+	}
+	if g.ext && g.r.Intn(100) < 3 {
+		op.Kind = "restore"
+		return op
+	}
+	return g.fill(op)
+}
+
+// nextPlain: one non-transactional write (its Idx is set by the caller)
+func (g *gen) nextPlain() *Op { return g.fill(&Op{Idx: g.idx}) }
+
+func (g *gen) fill(op *Op) *Op {
 	x := g.r.Intn(100)
 	if _, ns, _ := g.s.Nodes(nil, nil, ""); len(ns) == 0 && g.r.Intn(3) > 0 {
 		x = 63 + g.r.Intn(8) // an empty catalog: register something first
@@ -914,6 +980,7 @@ type History struct {
 	Errs   []string `json:"errs"`
 	Obs0   []Delta  `json:"obs0"`
 	Steps  []Step   `json:"steps"`
+	Sits   []SitInfo `json:"sits"`
 	Viol   []Viol   `json:"viol"`
 	Oracle string   `json:"oracle"`
 	// statistics
@@ -972,89 +1039,213 @@ func sharedName(s *state.Store, node string, ns *structs.NodeService) bool {
 	return false
 }
 
-// staleCheck: a check on the node carries a ServiceName that is no longer the name of its service
-func staleCheck(s *state.Store, node string, only string) bool {
+// SitInfo: a structured description of what the write does, computed on the real store BEFORE the
+// write; finding signatures are keyed on it (which service names / destinations are related to
+// the anomaly), so that a failure on an unrelated name in the same step is not absorbed.
+type StaleRef struct {
+	Stale   string `json:"stale"`   // the ServiceName the check still carries
+	Current string `json:"current"` // the name its service is registered under now
+	Dest    string `json:"dest"`    // connect destination of that service ("" if none)
+}
+
+type SitInfo struct {
+	Kind      string     `json:"kind"`
+	RenOld    string     `json:"ren_old,omitempty"` // service id registered again under another name
+	RenNew    string     `json:"ren_new,omitempty"`
+	MovedFrom []string   `json:"moved_from,omitempty"` // names (and destinations) of services an existing check leaves
+	Stale     []StaleRef `json:"stale,omitempty"`      // stale-named checks the write touches
+	ConnRem   []string   `json:"conn_rem,omitempty"`   // destinations that lose a connect instance
+	ConnAdd   []string   `json:"conn_add,omitempty"`   // ... gain one
+	ConnTouch []string   `json:"conn_touch,omitempty"` // ... keep one whose row or node changes
+}
+
+func connDest(ns *structs.NodeService) string {
+	switch {
+	case ns == nil:
+		return ""
+	case ns.Kind == structs.ServiceKindConnectProxy:
+		return ns.Proxy.DestinationServiceName
+	case ns.Connect.Native:
+		return ns.Service
+	}
+	return ""
+}
+
+func nodeSvcs(s *state.Store, node string) []*structs.NodeService {
+	var out []*structs.NodeService
+	if _, nss, _ := s.NodeServices(nil, node, nil, ""); nss != nil {
+		for _, ns := range nss.Services {
+			out = append(out, ns)
+		}
+	}
+	return out
+}
+
+func staleRefs(s *state.Store, node string, keep func(*structs.HealthCheck) bool) []StaleRef {
+	var out []StaleRef
 	_, cs, _ := s.NodeChecks(nil, node, nil, "")
 	for _, c := range cs {
-		if c.ServiceID == "" || (only != "" && string(c.CheckID) != only) {
+		if c.ServiceID == "" || !keep(c) {
 			continue
 		}
 		_, ns, _ := s.NodeService(nil, node, c.ServiceID, nil, "")
-		if ns == nil || ns.Service != c.ServiceName {
-			return true
+		if ns != nil && ns.Service != c.ServiceName {
+			out = append(out, StaleRef{Stale: c.ServiceName, Current: ns.Service, Dest: connDest(ns)})
 		}
 	}
-	return false
+	return out
 }
 
-// situation: a structured description of what the write did, used for finding signatures.  The
-// anomalous situations (a registration that changes the identity of an existing row in place, a
-// check that points at a stale service name, ...) take precedence over the plain write kind.
-func situation(s *state.Store, op *Op) string {
-	sit := op.Kind
-	switch op.Kind {
-	case "svc", "register":
-		if op.Svc != nil {
-			_, ns, _ := s.NodeService(nil, op.Node, op.Svc.ID, nil, "")
-			kind := "typical"
-			if op.Svc.Kind != "" {
-				kind = op.Svc.Kind
-			} else if op.Svc.Native {
-				kind = "connect-native"
+func (si *SitInfo) svcWrite(s *state.Store, node string, sp *SvcSpec) {
+	_, ns, _ := s.NodeService(nil, node, sp.ID, nil, "")
+	nw := mkService(sp)
+	kind := "typical"
+	if sp.Kind != "" {
+		kind = sp.Kind
+	} else if sp.Native {
+		kind = "connect-native"
+	}
+	od, nd := connDest(ns), connDest(nw)
+	switch {
+	case ns == nil:
+		si.Kind = "service-new:" + kind
+	case ns.Service != sp.Name:
+		si.Kind, si.RenOld, si.RenNew = "service-id-renamed", ns.Service, sp.Name
+	case connectName(ns) != connectName(nw):
+		si.Kind = "service-connect-changed"
+	default:
+		si.Kind = "service-update:" + kind
+	}
+	if od != nd {
+		if od != "" {
+			si.ConnRem = append(si.ConnRem, od)
+		}
+		if nd != "" {
+			si.ConnAdd = append(si.ConnAdd, nd)
+		}
+	} else if nd != "" {
+		si.ConnTouch = append(si.ConnTouch, nd)
+	}
+}
+
+func (si *SitInfo) checkWrite(s *state.Store, node string, c CheckSpec) {
+	_, hc, _ := s.NodeCheck(node, types.CheckID(c.ID), nil, "")
+	if hc == nil {
+		return
+	}
+	if hc.ServiceID != c.Svc {
+		if si.RenOld == "" {
+			si.Kind = "check-service-changed"
+		}
+		if hc.ServiceID == "" {
+			for _, ns := range nodeSvcs(s, node) {
+				si.MovedFrom = append(si.MovedFrom, ns.Service, connDest(ns))
 			}
-			switch {
-			case ns == nil:
-				sit = "service-new:" + kind
-			case ns.Service != op.Svc.Name:
-				return "service-id-renamed"
-			case connectName(ns) != connectName(mkService(op.Svc)):
-				return "service-connect-changed"
-			default:
-				sit = "service-update:" + kind
+		} else {
+			_, ns, _ := s.NodeService(nil, node, hc.ServiceID, nil, "")
+			si.MovedFrom = append(si.MovedFrom, hc.ServiceName)
+			if ns != nil {
+				si.MovedFrom = append(si.MovedFrom, ns.Service, connDest(ns))
 			}
 		}
 	}
-	switch op.Kind {
-	case "check", "register":
-		for _, c := range op.Checks {
-			_, hc, _ := s.NodeCheck(op.Node, types.CheckID(c.ID), nil, "")
-			if hc != nil && hc.ServiceID != c.Svc {
-				return "check-service-changed"
-			}
-			if hc != nil && staleCheck(s, op.Node, c.ID) {
-				return "check-stale-service-name"
+	st := staleRefs(s, node, func(x *structs.HealthCheck) bool { return string(x.CheckID) == c.ID })
+	if len(st) > 0 && si.RenOld == "" && si.Kind != "check-service-changed" {
+		si.Kind = "check-stale-service-name"
+	}
+	si.Stale = append(si.Stale, st...)
+}
+
+func (si *SitInfo) nodeTouched(s *state.Store, node string, removed bool) {
+	for _, ns := range nodeSvcs(s, node) {
+		if d := connDest(ns); d != "" {
+			if removed {
+				si.ConnRem = append(si.ConnRem, d)
+			} else {
+				si.ConnTouch = append(si.ConnTouch, d)
 			}
 		}
+	}
+}
+
+func situation(s *state.Store, op *Op) SitInfo {
+	si := SitInfo{Kind: op.Kind}
+	si.add(s, op)
+	if op.Kind == "txn" {
+		// approximation: every verb is described against the state before the transaction
+		for _, o := range op.Sub {
+			sub := SitInfo{Kind: o.Kind}
+			sub.add(s, o)
+			if si.RenOld == "" {
+				si.RenOld, si.RenNew = sub.RenOld, sub.RenNew
+			}
+			si.MovedFrom = append(si.MovedFrom, sub.MovedFrom...)
+			si.Stale = append(si.Stale, sub.Stale...)
+			si.ConnRem = append(si.ConnRem, sub.ConnRem...)
+			si.ConnAdd = append(si.ConnAdd, sub.ConnAdd...)
+			si.ConnTouch = append(si.ConnTouch, sub.ConnTouch...)
+			if sub.Kind != o.Kind && si.Kind == "txn" {
+				si.Kind = "txn:" + sub.Kind
+			}
+		}
+	}
+	return si
+}
+
+func (si *SitInfo) add(s *state.Store, op *Op) {
+	switch op.Kind {
+	case "svc":
+		si.svcWrite(s, op.Node, op.Svc)
+	case "register":
+		if _, n, _ := s.GetNode(op.Node, nil, ""); n != nil && (n.Address != addr(op.Addr) || string(n.ID) != op.NodeID) {
+			si.nodeTouched(s, op.Node, false)
+		}
+		if op.Svc != nil {
+			si.svcWrite(s, op.Node, op.Svc)
+		}
+		for _, c := range op.Checks {
+			si.checkWrite(s, op.Node, c)
+		}
+	case "node":
+		si.nodeTouched(s, op.Node, false)
+	case "check":
+		for _, c := range op.Checks {
+			si.checkWrite(s, op.Node, c)
+		}
 	case "del_check":
-		if staleCheck(s, op.Node, op.ChkID) {
-			return "check-stale-service-name"
+		si.Stale = staleRefs(s, op.Node, func(x *structs.HealthCheck) bool { return string(x.CheckID) == op.ChkID })
+		if len(si.Stale) > 0 {
+			si.Kind = "check-stale-service-name"
 		}
 	case "del_svc":
 		_, ns, _ := s.NodeService(nil, op.Node, op.SvcID, nil, "")
 		if ns != nil {
-			if staleCheck(s, op.Node, "") {
-				return "check-stale-service-name"
+			si.Stale = staleRefs(s, op.Node, func(x *structs.HealthCheck) bool { return x.ServiceID == op.SvcID })
+			if d := connDest(ns); d != "" {
+				si.ConnRem = append(si.ConnRem, d)
 			}
-			if sharedName(s, op.Node, ns) {
-				return "del-connect-shared-name"
-			}
-			if connectName(ns) != "" {
-				return "del-connect-service"
+			switch {
+			case len(si.Stale) > 0:
+				si.Kind = "check-stale-service-name"
+			case sharedName(s, op.Node, ns):
+				si.Kind = "del-connect-shared-name"
+			case connectName(ns) != "":
+				si.Kind = "del-connect-service"
 			}
 		}
 	case "del_node":
-		if staleCheck(s, op.Node, "") {
-			return "check-stale-service-name"
-		}
-		if _, nss, _ := s.NodeServices(nil, op.Node, nil, ""); nss != nil {
-			for _, ns := range nss.Services {
+		si.Stale = staleRefs(s, op.Node, func(*structs.HealthCheck) bool { return true })
+		si.nodeTouched(s, op.Node, true)
+		if len(si.Stale) > 0 {
+			si.Kind = "check-stale-service-name"
+		} else {
+			for _, ns := range nodeSvcs(s, op.Node) {
 				if sharedName(s, op.Node, ns) {
-					return "del-connect-shared-name"
+					si.Kind = "del-connect-shared-name"
 				}
 			}
 		}
 	}
-	return sit
 }
 
 func runHistory(id int, seed int64, ext bool, nsteps int, given []*Op) *History {
@@ -1075,6 +1266,7 @@ func runHistory(id int, seed int64, ext bool, nsteps int, given []*Op) *History 
 		wss := make([]memdb.WatchSet, len(qs))
 		for i, q := range qs {
 			ws := memdb.NewWatchSet()
+			ws.Add(s.AbandonCh()) // as blockingquery.Query does
 			idx, rows, err := runQuery(s, q, ws)
 			if err != nil {
 				rows = []Row{{K: []string{"ERROR"}, V: []interface{}{err.Error()}}}
@@ -1096,6 +1288,7 @@ func runHistory(id int, seed int64, ext bool, nsteps int, given []*Op) *History 
 			h.Obs0 = append(h.Obs0, Delta{Q: i, Idx: o.Idx, Rows: o.Rows})
 		}
 	}
+	hw := make([]uint64, len(qs)) // per query: the highest index reported so far (since the last restore)
 	for step := 0; step < nsteps; step++ {
 		var op *Op
 		if given != nil {
@@ -1103,7 +1296,50 @@ func runHistory(id int, seed int64, ext bool, nsteps int, given []*Op) *History 
 		} else {
 			op = g.next()
 		}
-		sit := situation(s, op)
+		for i := range qs {
+			if f := floor1(prev[i].Idx); f > hw[i] {
+				hw[i] = f
+			}
+		}
+		si := situation(s, op)
+		sit := si.Kind
+		h.Sits = append(h.Sits, si)
+		if op.Kind == "restore" {
+			// a snapshot restore as the FSM does it: a NEW store with the same content takes over and the
+			// old one is abandoned.  The content is rebuilt by replaying the successful writes (the real
+			// snapshot codec is C02's subject); what is checked here is the hand-over: every watch set of
+			// the old store wakes, and no query reports index 0 on the new one.
+			ns := state.NewStateStore(nil)
+			if ext {
+				ns.SystemMetadataSet(1, &structs.SystemMetadataEntry{Key: structs.SystemMetadataIntentionFormatKey, Value: structs.SystemMetadataIntentionFormatConfigValue})
+			}
+			for k, o := range h.Ops {
+				if o.Kind != "restore" && h.Errs[k] == "" {
+					apply(ns, o)
+				}
+			}
+			old := s
+			s, g.s = ns, ns
+			old.Abandon()
+			h.Ops = append(h.Ops, op)
+			h.Errs = append(h.Errs, "")
+			cur, nws := eval()
+			st := Step{Chg: []Delta{}, Fired: []int{}}
+			for i := range qs {
+				if pollWS(wss[i]) {
+					st.Fired = append(st.Fired, i)
+				} else {
+					h.Viol = append(h.Viol, Viol{step, i, "missed-wake", prev[i].Idx, cur[i].Idx, "restore"})
+				}
+				if cur[i].canon != prev[i].canon || cur[i].Idx != prev[i].Idx {
+					st.Chg = append(st.Chg, Delta{Q: i, Idx: cur[i].Idx, Rows: cur[i].Rows})
+				}
+				hw[i] = 0 // the exemption of the contract: after a restore the index may start lower
+			}
+			h.Steps = append(h.Steps, st)
+			prev, wss = cur, nws
+			continue
+		}
 		errs := apply(s, op)
 		h.Ops = append(h.Ops, op)
 		h.Errs = append(h.Errs, errs)
@@ -1127,6 +1363,9 @@ func runHistory(id int, seed int64, ext bool, nsteps int, given []*Op) *History 
 				h.Changed++
 				if !(f1 > f0) {
 					h.Viol = append(h.Viol, Viol{step, i, "missed-index", prev[i].Idx, cur[i].Idx, sit})
+				} else if !(f1 > hw[i]) {
+					// above the previous state's index but not above one handed out earlier (before a reap)
+					h.Viol = append(h.Viol, Viol{step, i, "missed-highwater", hw[i], cur[i].Idx, sit})
 				}
 				if !fired {
 					h.Viol = append(h.Viol, Viol{step, i, "missed-wake", prev[i].Idx, cur[i].Idx, sit})
@@ -1347,6 +1586,7 @@ func main() {
 	replay := flag.String("replay", "", "replay file: {\"stream\":..,\"ops\":[..]}")
 	nmodel := flag.Int("model", -1, "number of model-stream histories")
 	next := flag.Int("ext", -1, "number of ext-stream histories")
+	nep := flag.Int("ep", -1, "number of endpoint-tier histories")
 	flag.Parse()
 	_ = context.Background
 	_ = errors.New
@@ -1364,8 +1604,13 @@ func main() {
 		if err := json.Unmarshal(b, &rp); err != nil {
 			panic(err)
 		}
-		h := runHistory(0, 0, rp.Stream == "ext", 0, rp.Ops)
+		var h *History
 		qs := queryList(rp.Stream == "ext")
+		if rp.Stream == "ep" {
+			h, qs = runEPHistory(0, 0, 0, rp.Ops), epQueries()
+		} else {
+			h = runHistory(0, 0, rp.Stream == "ext", 0, rp.Ops)
+		}
 		for _, v := range h.Viol {
 			fmt.Printf("step %d (%s idx %d): query %v: %s (index %d -> %d) situation=%s\n", v.Step, h.Ops[v.Step].Kind, h.Ops[v.Step].Idx, qs[v.Q], v.Kind, v.I0, v.I1, v.Sit)
 		}
@@ -1375,7 +1620,7 @@ func main() {
 		if *out != "" {
 			f, _ := os.Create(*out)
 			w := bufio.NewWriter(f)
-			hb, _ := json.Marshal(map[string]interface{}{"queries": qs, "ext_queries": queryList(true)})
+			hb, _ := json.Marshal(map[string]interface{}{"queries": queryList(false), "ext_queries": queryList(true), "ep_queries": epQueries()})
 			w.Write(hb)
 			w.WriteString("\n")
 			jb, _ := json.Marshal(h)
@@ -1387,9 +1632,12 @@ func main() {
 		return
 	}
 
-	nm, ne, nl, steps := 150, 60, 40, 25
+	nm, ne, nl, steps, np := 150, 60, 40, 25, 18
 	if *tier == "thorough" {
-		nm, ne, nl, steps = 1500, 600, 150, 30
+		nm, ne, nl, steps, np = 1500, 600, 150, 30, 120
+	}
+	if *nep >= 0 {
+		np = *nep
 	}
 	if *nmodel >= 0 {
 		nm = *nmodel
@@ -1400,16 +1648,20 @@ func main() {
 	type job struct {
 		id  int
 		ext bool
+		ep  bool
 	}
-	jobs := make(chan job, nm+ne)
+	jobs := make(chan job, nm+ne+np)
 	for i := 0; i < nm; i++ {
-		jobs <- job{i, false}
+		jobs <- job{i, false, false}
 	}
 	for i := 0; i < ne; i++ {
-		jobs <- job{nm + i, true}
+		jobs <- job{nm + i, true, false}
+	}
+	for i := 0; i < np; i++ {
+		jobs <- job{nm + ne + i, false, true}
 	}
 	close(jobs)
-	res := make([]*History, nm+ne)
+	res := make([]*History, nm+ne+np)
 	var wg sync.WaitGroup
 	for w := 0; w < 6; w++ {
 		wg.Add(1)
@@ -1417,7 +1669,14 @@ func main() {
 			defer wg.Done()
 			for j := range jobs {
 				n := 5 + int((*seed*7919+int64(j.id)*104729)%int64(steps-4))
-				res[j.id] = runHistory(j.id, *seed*1000003+int64(j.id), j.ext, n, nil)
+				if j.ep {
+					if n > 20 {
+						n = 20
+					}
+					res[j.id] = runEPHistory(j.id, *seed*1000003+int64(j.id), n, nil)
+				} else {
+					res[j.id] = runHistory(j.id, *seed*1000003+int64(j.id), j.ext, n, nil)
+				}
 			}
 		}()
 	}
@@ -1433,7 +1692,7 @@ func main() {
 		defer f.Close()
 	}
 	w := bufio.NewWriterSize(f, 1<<20)
-	hb, _ := json.Marshal(map[string]interface{}{"queries": queryList(false), "ext_queries": queryList(true)})
+	hb, _ := json.Marshal(map[string]interface{}{"queries": queryList(false), "ext_queries": queryList(true), "ep_queries": epQueries()})
 	w.Write(hb)
 	w.WriteString("\n")
 	for _, h := range res {
